@@ -12,7 +12,15 @@ while [ $# -gt 0 ]; do
 done
 W=/tmp/simcopy-$NAME
 mkdir -p $W/home
-rsync -a --delete --exclude target --exclude build.log /verif/sim/ $W/sim/
+if [ -n "$VERIF_SNAPSHOT" ]; then
+  # a pinned commit of /verif instead of its working tree (long campaigns while editing goes on)
+  rm -rf $W/snap; mkdir -p $W/snap
+  git -C /verif archive "$VERIF_SNAPSHOT" sim known_findings.txt | tar -x -C $W/snap
+  rsync -a --delete --exclude target --exclude build.log $W/snap/sim/ $W/sim/
+  cp $W/snap/known_findings.txt $W/home/ 2>/dev/null
+else
+  rsync -a --delete --exclude target --exclude build.log /verif/sim/ $W/sim/
+fi
 sed -i "s|/repo|$TREE|g" $W/sim/Cargo.toml $W/sim/src/main.rs $W/sim/src/c15.rs $W/sim/miri_threads/Cargo.toml $W/sim/build.rs
 [ -f $TREE/Cargo.lock ] || cp /repo/Cargo.lock $TREE/Cargo.lock
 cp /verif/known_findings.txt $W/home/
